@@ -65,7 +65,7 @@ F_UNITS = ['Hz', 'kHz', '1/min']
 F_UNIT_HZ = {'Hz': 1.0, 'kHz': 1000.0, '1/min': 1 / 60}
 OPENING_CHECKS = ('open_not_before_close', 'closed_inside_interval', 'open_outside_interval',
                   'duration', 'slit_multiplicity', 'duplicate_opening', 'missing_opening',
-                  'non_finite', 'shape')
+                  'non_finite', 'shape', 'span_shorter_than_requested')
 
 
 # ------------------------------------------------------------ observation ---
@@ -97,7 +97,7 @@ def angle_magnitude(ch, disk, rotations):
     return m + TWO_PI * (rotations + 2)
 
 
-def check_openings(disk, to, tc, tol_t):
+def check_openings(disk, to, tc, tol_t, min_span=None):
     """Put reported intervals on the disk.  Returns (problems: dict check -> info, stats)."""
     prob = {}
     stats = {}
@@ -189,6 +189,13 @@ def check_openings(disk, to, tc, tol_t):
                                    'reported_valid_distinct': distinct_valid,
                                    'span': [float(t_lo), float(t_hi)]}
     stats['oracle_inconsistent'] = bool(n_true < distinct_valid)
+    # documented contract of time_offset_open/close ("the array covers an entire pulse length" /
+    # "covers more than one pulse in time"): the covered span is at least the requested pulses
+    if min_span is not None:
+        span = np.max(tc) - np.min(to)
+        stats['span/requested'] = float(span / min_span)
+        if span < min_span - 2 * tol_t:
+            prob['span_shorter_than_requested'] = {'span': float(span), 'requested': float(min_span)}
     return prob, stats
 
 
@@ -347,7 +354,7 @@ class Monitors:
             disk, _ = disk_of(ch)
             rot = int(np.ceil(max(ri['ratio'], 1.0))) + 1
             tol_t = K_TOL * EPS * angle_magnitude(ch, disk, rot) / abs(disk.omega)
-            prob, stats = check_openings(disk, to, tc, tol_t)
+            prob, stats = check_openings(disk, to, tc, tol_t, min_span=1 / ri['fp_hz'])
         except Exception:  # noqa: BLE001
             ctx.oracle_error('C10 direct pair')
             return None
@@ -483,7 +490,7 @@ class Monitors:
                 if 'open' in slot and 'close' in slot:
                     direct_ok = self.cache.get((id(ch), slot.get('fp'), _bits(slot['open']),
                                                 _bits(slot['close'])))
-            prob, stats = check_openings(disk, to, tc, tol_t)
+            prob, stats = check_openings(disk, to, tc, tol_t, min_span=npulses * t_pulse)
         except Exception:  # noqa: BLE001
             ctx.oracle_error('C10 cascade')
             return
@@ -586,6 +593,8 @@ def gen_case(rng, ctx):
     fp_hz = fp_choices[rng.integers(0, len(fp_choices))]
     fp_unit = F_UNITS[rng.integers(0, 3)]
     f_unit = F_UNITS[rng.integers(0, 3)]
+    if rng.random() < 0.4:
+        f_unit = fp_unit
     label, ratio = RATIOS[rng.integers(0, len(RATIOS))]
     sign = [-1.0, 1.0][rng.integers(0, 2)]
     q = rng.random()
@@ -650,6 +659,8 @@ def requirements(tier):
         'ctor.must_accept': 200, 'ctor.must_reject': 40,
         'freq.must_accept': 300, 'freq.must_reject': 100,
         'pair.direct': 100, 'intervals.direct': 1000, 'open_duration': 100,
+        'cascade.npulses=1': 40, 'cascade.npulses=2': 40, 'cascade.npulses=3': 40,
+        'cascade.npulses=4': 40, 'intervals.cascade': 2000,
     }
     if big:
         ev = {k: v * 20 for k, v in ev.items()}
